@@ -47,6 +47,7 @@ type Frame struct {
 	loops      []*loopCtx
 	nilChecked map[string]*ssa.BasicBlock
 	siteDone   map[string]bool
+	callHits   map[int]int
 	siteHits   int
 }
 
@@ -1690,7 +1691,6 @@ func (e *Engine) siteAsserts(fr *Frame, st *State, instr ssa.Instruction) {
 		}
 		ob := e.vc.oblige(fmt.Sprintf("assert_at:%d#", k+1), st.pc, t, fmt.Sprintf("before %q: %s", sa.Text, sa.Cl.Text))
 		ob.Props = sa.Cl.Props
-		e.vc.assume(st.pc, t)
 	}
 }
 
